@@ -118,7 +118,16 @@ func newEnv(mode string) *env {
 	return &env{mode: mode, content: map[string][]byte{}, universe: map[string]struct{}{}}
 }
 
+var storeUses int
+
+// mockStore: one mocktikv store serves a batch of cases (every case overwrites / deletes the previous content
+// through a committed transaction); it is replaced regularly because its scans walk over all dead versions
 func mockStore() *tikv.KVStore {
+	storeUses++
+	if store != nil && storeUses%16 == 0 {
+		_ = store.Close()
+		store, prevKeys = nil, nil
+	}
 	if store != nil {
 		return store
 	}
